@@ -929,7 +929,7 @@ def finish(agg: Dict[str, Any], tier: str) -> Dict[str, Any]:
         complete &= ok
         exh["bitmaps_%dx%d" % (w, h)] = {"bitmaps": c.get("exh_bitmaps:w%dh%d" % (w, h), 0), "of": 2 ** (w * h), "complete": ok}
     return {
-        "exhaustive": exh,
+        "exhaustive_parts": exh,
         "exhaustive_complete": bool(complete),
         "encodings_enumerated": c.get("pair_encodings", 0) + c.get("first_line_encodings", 0),
         "mode_codes_decoded": {m: c.get("mode:" + m, 0) for m in MODES},
